@@ -61,3 +61,87 @@ package bytes
 //@   requires begin <= end + 1 && end + 1 <= cap(b)
 //@   nopanic
 //@   ensures result.$arr == b.$arr && result.$off == b.$off + begin && len(result) == end + 1 - begin
+
+//@ func (Bytes).TrimSpaces()
+//@   props C02 C07 C13
+//@   nopanic
+//@   ensures len(result) <= len(b)
+//@   ensures len(result) > 0 ==> result.$arr == b.$arr && !isBlank(result[0]) && !isBlank(result[len(result)-1])
+//@   ensures len(result) > 0 ==> allBlank(b, 0, result.$off - b.$off) && allBlank(b, result.$off - b.$off + len(result), len(b))
+//@   ensures len(result) == 0 ==> allBlank(b, 0, len(b))
+//@   loop 0 invariant 0 <= left && left <= blen && blen == len(b) && right == blen - 1 && allBlank(b, 0, left)
+//@   loop 0 decreases blen - left
+//@   loop 1 invariant left < blen && blen == len(b) && !isBlank(b[left]) && left <= right && right < blen && allBlank(b, right + 1, blen) && allBlank(b, 0, left)
+//@   loop 1 decreases right
+
+//@ func (Bytes).OneOf(ss)
+//@   props C03 C07
+//@   nopanic
+
+//@ func (Bytes).ParseBool()
+//@   props C02 C07
+//@   nopanic
+//@   ensures (result1 == nil) == (beq(b, "true") || beq(b, "false"))
+//@   ensures result1 == nil ==> result0 == beq(b, "true")
+
+//@ func (Bytes).ParseUint()
+//@   props C07 C10
+//@   nopanic
+//@   ensures result1 == nil ==> len(b) > 0 && (forall k :: 0 <= k && k < len(b) ==> isDigit(b[k]))
+//@   ensures (len(b) == 0 || (exists k :: 0 <= k && k < len(b) && !isDigit(b[k]))) ==> result1 != nil
+//@   loop 0 invariant rangeindex < len(b) && (forall k :: 0 <= k && k <= rangeindex ==> isDigit(b[k]))
+//@   loop 0 decreases len(b) - rangeindex
+
+//@ func (Bytes).ParseInt()
+//@   props C07 C10
+//@   requires len(b) > 0
+//@   nopanic
+
+//@ func (Bytes).IsUserTypeName()
+//@   props C03 C07
+//@   nopanic
+//@   ensures result == (len(b) >= 2 && b[0] == '@' && (forall k :: 1 <= k && k < len(b) ==> isNameByte(b[k])))
+//@   loop 0 invariant rangeindex < len(b) - 1 && (forall k :: 1 <= k && k <= rangeindex + 1 ==> isNameByte(b[k]))
+//@   loop 0 decreases len(b) - rangeindex
+
+//@ func (Bytes).LineFrom(start)
+//@   props C07
+//@   nopanic
+//@   loop 0 invariant start <= i && i <= l && l == len(b)
+//@   loop 0 decreases l - i
+
+//@ func (Bytes).InQuotes()
+//@   props C02 C13
+//@   nopanic
+//@   ensures result == (len(b) >= 2 && b[0] == '"' && b[len(b)-1] == '"')
+
+//@ func (Bytes).TrimSquareBrackets()
+//@   props C07
+//@   nopanic
+
+//@ func getu4(s)
+//@   props C07
+//@   nopanic
+//@   ensures result >= -1 && result <= 65535 && (result >= 0 ==> len(s) >= 6)
+//@   loop 0 invariant rangeindex < 4 && 0 <= r && (rangeindex == -1 ==> r == 0) && (rangeindex == 0 ==> r < 16) && (rangeindex == 1 ==> r < 256) && (rangeindex == 2 ==> r < 4096) && r < 65536
+//@   loop 0 decreases 4 - rangeindex
+
+//@ func unquoteBytes(s)
+//@   props C02 C07 C13
+//@   requires len(s) <= 1000000000000
+//@   nopanic
+//@   ensures old(plainQuoted(s)) ==> ok && t.$arr == s.$arr && t.$off == s.$off + 1 && len(t) == len(s) - 2
+//@   ensures ok ==> len(s) >= 2
+//@   loop 0 invariant 0 <= r && r <= len(s) && len(s) == len(s0) - 2 && s.$arr == s0.$arr && s.$off == s0.$off + 1
+//@   loop 0 invariant forall k :: 0 <= k && k < r ==> (s[k] != 92 && s[k] != '"' && s[k] >= 32)
+//@   loop 0 decreases len(s) - r
+//@   loop 1 invariant 0 <= r && r <= len(s) + 12 && 0 <= w && w <= len(b) && len(b) >= 8 && w <= 4 * r && len(b) <= 8 * len(s) + 24 && len(s) <= 1000000000000
+//@   loop 1 invariant fresh(b)
+//@   loop 1 decreases len(s) + 12 - r
+
+//@ func (Bytes).Unquote()
+//@   props C02 C07 C13
+//@   requires len(b) <= 1000000000000
+//@   nopanic
+//@   ensures !(len(b) >= 2 && b[0] == '"' && b[len(b)-1] == '"') ==> result == b
+//@   ensures old(plainQuoted(b)) ==> result.$arr == b.$arr && result.$off == b.$off + 1 && len(result) == len(b) - 2
